@@ -1,10 +1,16 @@
 (* C09  Opening a chained file accounts for every link and every sample.
    Proved on VFile.v: splitting the page table into links loses no page and
    every link starts at a BOS page; lengths and initial offsets are
-   non-negative; the total is the sum of the link lengths.  That the linear
-   read then delivers every link completely and in order is established per
-   run (tie + oracle), see DESIGN.md. *)
-From VV Require Import Blocking VFile VFile_lemmas VFileDemo.
+   non-negative; the total is the sum of the link lengths; and, for one link
+   at full rate: reading an intact run of packets and then the link's
+   end-of-stream packet delivers EXACTLY the samples up to the position the
+   last granule position names - none missing, none beyond - and leaves the
+   reported position at the link's end (Sync_lemmas.v: link_read_to_end).
+   That the read then crosses into the next link and delivers it from its
+   first sample is established per run (tie + oracle), see DESIGN.md. *)
+From VV Require Import Blocking VFile VFile_lemmas VFileDemo Sync_lemmas.
+From Coq Require Import ZArith List Lia.
+Import ListNotations.
 Local Open Scope Z_scope.
 
 Theorem C09_every_page_in_exactly_one_link :
@@ -31,3 +37,37 @@ Example C09_demo_links :
   map (fun l => (li_serial l, li_off l, li_dataoff l, li_init l, li_len l)) (v_links demo) =
   [(1, 0, 158, 0, 300); (2, 248, 406, 0, 128)].
 Proof. vm_compute. reflexivity. Qed.
+
+(* every sample of a link is accounted for: intact packets, then the end-of-stream packet whose granule
+   position names the link's length L (the decoder having seen some granule position before) *)
+Theorem C09_link_read_accounts_for_every_sample :
+  forall ps s here p w L,
+    SyncInv s here -> intact_seq s here ps ->
+    let '(s1, ns) := run_link s ps in
+    let here1 := here + fold_right Z.add 0 ns in
+    d_gran (v_dec s1) <> -1 ->
+    pk_eos p = true -> pk_gran p = li_init (cur_link s1) + L ->
+    here1 <= L <= here1 + (bsz (cur_cfg s1) (d_W (v_dec s1)) / 4 + bsz (cur_cfg s1) w / 4) ->
+    let '(n, s2) := drain (feed s1 p w) in
+    fold_right Z.add 0 ns + n = L - here /\ v_pcm s2 = base_of s (v_link s) + L /\ dec_pcmout (v_dec s2) = 0.
+Proof. exact link_read_to_end. Qed.
+Print Assumptions C09_link_read_accounts_for_every_sample.
+
+(* non-vacuity: the demo link (700 samples) from the position after its first read (32): six intact packets and
+   the end-of-stream packet deliver 32+32+144+256+144+32 and then 28 samples = 700 - 32, and the position ends at 700 *)
+Example C09_demo2_read_to_end :
+  let a w g e := {| pk_W := Some w; pk_gran := g; pk_eos := e |} in
+  let s1 := snd (read_float (read_fuel demo2) demo2 1000) in
+  let ps := [(a false 64 false, false); (a false (-1) false, false); (a true 240 false, true); (a true 496 false, true);
+             (a false (-1) false, false); (a false 672 false, false)] in
+  SyncInv s1 32 /\ intact_seq s1 32 ps /\
+  (let '(s2, ns) := run_link s1 ps in
+   let '(n, s3) := drain (feed s2 (a false 700 true) false) in
+   ns = [32; 32; 144; 256; 144; 32] /\ n = 28 /\ v_pcm s3 = 700 /\ li_len (cur_link s3) = 700).
+Proof.
+  cbv zeta. split; [|split].
+  - unfold SyncInv. vm_compute. repeat split; try discriminate; try reflexivity; try (intros H; discriminate H). right. reflexivity.
+  - cbn [intact_seq]. unfold intact.
+    repeat (split; [vm_compute; split; [reflexivity|first [left; reflexivity|right; reflexivity]]|]). exact I.
+  - vm_compute. repeat split; reflexivity.
+Qed.
